@@ -2,19 +2,20 @@
    request / model input:  (mem chg ops sched)
      mem    one atom per member of the store in output order (resources, then datasets):
             0 inline resource, 1 stand-off plain-text resource, 2 stand-off .json resource,
-            3 inline dataset, 4 stand-off dataset
+            3 inline dataset, 4 stand-off dataset, 5 stand-off dataset whose file cannot be written
      chg    one atom per member: 1 = the changed flag is set when the threads start
      ops    one entry (kind idx variant) per thread: kind 0 pure reader (variant says which one;
             of no concern to the model), 1 store.to_json_string, 2 ToJson::to_json_string(member idx,
             store config), 3 inherent member.to_json_string(), 4 ToJson::to_json_string(member idx,
             unrelated Config), 5 ToJson::to_json_string(member idx, store config) followed by
             store.to_json_string on the same thread, 6 store.to_json_file into a file of the thread's own
-            (same code path as 1)
+            (same code path as 1), 7 store.to_json_string twice on the same thread
      sched  the thread chosen at every scheduling decision of the deterministic scheduler (one
             decision = the chosen thread performs the access it is blocked in front of and runs up to
             its next yield site), as executed by the harness
    one triple per thread: ((tokens) same finished) where tokens = how each member appears in the
-   string the thread obtained (2i inline, 2i+1 as @include), same = equal to the solo result;
+   string(s) the thread obtained (2i inline, 2i+1 as @include, -7 end of a call when the thread makes
+   several, -2 the call returned Err), same = equal to the solo result;
    then one triple for the stand-off files: per member 1 if its file does not hold the member's
    content after the run.
    A fifth element 1 marks a free run: the threads were started together without the scheduler
@@ -30,6 +31,7 @@ Definition fkind_of (x : sx) : fkind :=
   | 1 => Txt
   | 2 => Json
   | 4 => Json
+  | 5 => JsonBroken
   | _ => NoFile
   end.
 
@@ -42,6 +44,7 @@ Definition op_of (x : sx) : op :=
   | 4 => OpMemberForeign i
   | 5 => OpMemberThenStore i
   | 6 => OpStore
+  | 7 => OpStoreTwice
   | _ => OpPure
   end.
 
@@ -57,15 +60,20 @@ Fixpoint list_eqb (a b : list nat) : bool :=
   | _, _ => false
   end.
 
+Definition tok_sx (t : tok) : sx :=
+  if Nat.eqb t t_sep then A (-7)%Z else if Nat.eqb t t_err then A (-2)%Z else of_nat t.
+
+Definition toks_sx (l : list tok) : sx := L (map tok_sx l).
+
 Definition obs_thread (want : list tok) (t : thread) : sx :=
   if dead t then L [L [A (-3)%Z]; A 0%Z; A 0%Z]
-  else L [of_nats (out t); of_bool (list_eqb (out t) want && finished t); of_bool (finished t)].
+  else L [toks_sx (out t); of_bool (list_eqb (out t) want && finished t); of_bool (finished t)].
 
 Fixpoint triples (sc : scen) (ts : list thread) (os : list op) : list sx :=
   match ts, os with
   | t :: ts', o :: os' =>
-      let want := spec_out (members sc) o in
-      triple (obs_thread want t) (L [of_nats want; A 1%Z; A 1%Z]) 0 :: triples sc ts' os'
+      let want := spec_result (members sc) (changed0 sc) o in
+      triple (obs_thread want t) (L [toks_sx want; A 1%Z; A 1%Z]) 0 :: triples sc ts' os'
   | _, _ => []
   end.
 
@@ -75,7 +83,7 @@ Definition file_bad (ts : list thread) (i : nat) : bool :=
 
 (* every thread scheduled until it has finished: one of the schedules *)
 Definition sequential_schedule (sc : scen) : list nat :=
-  flat_map (fun i => repeat i 64) (seq 0 (length (ops sc))).
+  flat_map (fun i => repeat i 200) (seq 0 (length (ops sc))).
 
 Definition run_C20 (x : sx) : sx :=
   let sc := scen_of x in
